@@ -86,6 +86,7 @@ DISP_IMPORTS = ['Coq.Lists.List', 'Coq.Bool.Bool', 'SV.Rot.RotDispatch', 'SV.Gen
 REIFY_IMPORTS = ['Coq.Lists.List', 'Coq.Bool.Bool', 'SV.Rot.RotReify', 'SV.Gen.RotReified_gen']
 GJ_IMPORTS = ['Coq.Lists.List', 'Coq.Bool.Bool', 'SV.Rot.RotGJ', 'SV.Gen.RotInverse_gen']
 GJT_IMPORTS = ['Coq.Lists.List', 'Coq.Bool.Bool', 'Coq.QArith.QArith', 'SV.Rot.RotGJ', 'SV.Rot.RotGJTotal', 'SV.Gen.RotInverse_gen']
+METHOD_IMPORTS = ['Coq.Lists.List', 'Coq.Bool.Bool', 'SV.Rot.RotMethods', 'SV.Gen.RotMethods_gen']
 INPLACE_IMPORTS = ['Coq.Lists.List', 'Coq.Bool.Bool', 'SV.Rot.RotInplace', 'SV.Gen.RotInplace_gen']
 ROUND_IMPORTS = ['Coq.Lists.List', 'Coq.Bool.Bool', 'Coq.QArith.QArith', 'SV.Rot.RotRound', 'SV.Gen.RotRounded_gen']
 TOL = 1e-9
@@ -1516,12 +1517,14 @@ def run(ck: Ck) -> None:
     ok_r = ok_f and ck.translate('RotReified_gen', tr.translate_reified)
     ok_rr = ok_f and ck.translate('RotRounded_gen', trr.translate_rounded)
     ok_ip = ck.translate('RotInplace_gen', trp.translate_inplace)
+    ok_im = ok_f and ok_d and ck.translate('RotMethods_gen', trp.translate_methods)
     A = tr.analyse() if (ok_f and ok_d) else None
     built = False
     # 1. models and generated objects (definitions only: these compile whatever the source computes)
     models = ck.build(['Rot/RotGJ.vo', 'Rot/RotGJTotal.vo', 'Rot/RotGJFloat.vo', 'Rot/RotDispatch.vo', 'Rot/RotReify.vo', 'Rot/RotRound.vo',
-                       'Rot/RotInplace.vo']
+                       'Rot/RotInplace.vo', 'Rot/RotMethods.vo']
                       + (['Gen/RotInplace_gen.vo'] if ok_ip else [])
+                      + (['Gen/RotMethods_gen.vo'] if ok_im else [])
                       + (['Gen/RotFormulas_gen.vo', 'Gen/RotDispatch_gen.vo'] if A is not None else [])
                       + (['Gen/RotReified_gen.vo'] if ok_r else [])
                       + (['Gen/RotRounded_gen.vo'] if ok_rr else [])
@@ -1562,6 +1565,15 @@ def run(ck: Ck) -> None:
         ck.extra['inplace_census'] = [f'{r["cls"]}.{r["name"]} ({r["origin"]}): ' + ', '.join(
             p['kind'] + (f'({p["stores"]})' if p['kind'] == 'PSelf' else '') + (f' [{p["why"]}]' if p['why'] else '') for p in r['paths'])
             for r in trp.analyse()['rows']]
+    if ok_im and models:
+        # the in-place rotation METHODS, executed symbolically: the receiver ends up holding the pure operator form
+        group(METHOD_IMPORTS, {
+            'inplace_method_localise_is_rotate_then_translate': 'forallb mrow_ok (rows_of_meth MLocalise method_table)',
+            'inplace_method_vec_transform_is_vec_matmul_rotation': 'forallb mrow_ok (rows_of_meth MVecTransform method_table)',
+            'inplace_method_angle_transform_is_angle_matmul_rotation': 'forallb mrow_ok (rows_of_meth MAngTransform method_table)',
+            'inplace_method_rotate_is_vec_matmul_angle': 'forallb mrow_ok (rows_of_meth MRotate method_table)',
+            'inplace_methods_ok': 'methods_ok method_table',
+        })
     if ok_r and models:
         group(REIFY_IMPORTS, {
             'to_angle_guard_operator_is_gt': 'guard_operator_ok ta_guard_cfg',
@@ -1624,7 +1636,7 @@ def run(ck: Ck) -> None:
     # 3. the proofs about the generated formulas
     if A is not None and models:
         core = ck.build(['Rot/RotAlgebra.vo', 'Rot/RotAliasProofs.vo', 'Rot/RotEulerProofs.vo', 'Rot/RotDispatchProofs.vo',
-                         'Rot/RotGJProofs.vo', 'Rot/RotGJTotalProofs.vo', 'Rot/RotGJExample.vo'] + (['Rot/RotReifyProofs.vo'] if ok_r else [])
+                         'Rot/RotGJProofs.vo', 'Rot/RotGJTotalProofs.vo', 'Rot/RotGJExample.vo', 'Rot/RotMethodsProofs.vo'] + (['Rot/RotReifyProofs.vo'] if ok_r else [])
                         + (['Rot/RotRoundProofs.vo', 'Rot/RotRoundFlocq.vo', 'Rot/RotRoundTied.vo', 'Rot/RotRoundEuler.vo'] if ok_rr else []))
         built = core and ck.build(['Props/C04.vo'])
         if built:
@@ -1670,6 +1682,8 @@ def run(ck: Ck) -> None:
     if any(k.startswith(('not-in-place', 'inplace-')) for k in keys):
         ck.explain('instance:inplace_')
         ck.explain('translate:RotInplace_gen')
+    if any(k.startswith('inplace-method-') for k in keys):
+        ck.explain('translate:RotMethods_gen')
     if any(k.startswith('inverse-') for k in keys):
         ck.explain('instance:inverse_')
         ck.explain('correspondence:inverse')
